@@ -57,6 +57,11 @@ HX int h_prog(int id, int n, int n2, int n3, const double* x, const int* idx, in
     case 57: { arr_real r = medfilt(*new arr_real(mk_real(x, n)), n2); put_real(r, y); return r.size(); }
     case 58: { arr_real r = mscohere(mk_real(x, n2), mk_real(x + 1, n2), n); put_real(r, y); return r.size(); }
     case 59: { arr_real r = linspace(x[0], x[1], (size_t)n); put_real(r, y); return r.size(); }
+    // ---- slices with symbolic (i1, i2, step) = idx[0..2]: materialise / fill / copy between arrays (memory safety only; the element semantics are C04's)
+    case 60: { arr_real a = mk_real(x, n); arr_real r = *a.slice(idx[0], idx[1], idx[2]); put_real(r, y); return r.size(); }
+    case 61: { arr_real a = mk_real(x, n); a.slice(idx[0], idx[1], idx[2]) = 7.5; put_real(a, y); return a.size(); }
+    case 62: { arr_real a = mk_real(x, n); arr_real b = mk_real(x + n, n2); a.slice(idx[0], idx[1], idx[2]) = b; put_real(a, y); return a.size(); }
+    case 63: { arr_cmplx a = mk_cmplx(x, n); const arr_cmplx& ca = a; arr_cmplx r = *ca.slice(idx[0], idx[1], idx[2]); put_cmplx(r, y); return r.size(); }
     default: return -3;
     }
     H_END
